@@ -201,3 +201,65 @@ let run_cachedseqspec parts =
   | v :: _ -> "spec=" ^ v
 
 let () = register "cachedseqspec" run_cachedseqspec
+
+(* cachedseq: the model of the CACHING proxy (Router/Cached.v: handle_c over the cache state of Cache/CachePolicy.v) run
+   on the same step list.  Deterministic part only: for plain sequences (gaps well below 1 s, TTL 60) every step's
+   response is predicted octet for octet (first step relayed, later steps served from cache with unchanged TTLs, own
+   OPT iff the query had one); for prefetching sequences (second step 3.3 s after a 4 s-TTL store) the otter clock phase
+   decides between a hit (TTLs aged by 3 s) and an expiry (fresh relay): both predictions are printed for step 2 and
+   later steps are not predicted. *)
+let key_table : (string, int) Hashtbl.t = Hashtbl.create 16
+let ckey_of (q : question) (_ : addr) : n =
+  let s = hex_of_bytes q.q_name ^ ":" ^ hex_of_bytes [q.q_type] ^ ":" ^ hex_of_bytes [q.q_class] in
+  match Hashtbl.find_opt key_table s with
+  | Some i -> n_of_int i
+  | None -> let i = Hashtbl.length key_table + 1 in Hashtbl.add key_table s i; n_of_int i
+
+let run_cachedseq parts =
+  let f = fields parts in
+  let c = parse_cfg (fld f "cfg") in
+  let steps = List.map (fun s -> match String.split_on_char '/' s with
+      | [l; client; q; gap] -> (l, client, q, int_of_string gap) | _ -> failwith "bad step") (split ';' (fld f "steps")) in
+  let maxttl = init_max_ttl (z_of_int 0) in
+  let clk0 = n_of_int 1000 in
+  let ns ms = z_of_int (ms * 1000000) in
+  let resp_of lk m (o : creq_out) = match respond lk m o.co_resp with b :: _ -> hex_of_bytes (strip_frame lk b) | [] -> "-" in
+  let decode (l, client, q, gap) =
+    let l0 = List.hd (String.split_on_char '-' l) in
+    (listener_of l0, client_of l0 client, unpack_msg (bytes_of_hex q), gap) in
+  let dsteps = List.map decode steps in
+  let prefetching = List.exists (fun (_, _, _, g) -> g >= 1000) dsteps in
+  let up_for m = fst (up_outcome m (fld f "up")) in
+  let run_events evs = snd (crun (matches_of c) c.rules c.ecs (fun _ _ -> (match dsteps with (_, _, Ok m, _) :: _ -> up_for m | _ -> UFail))
+                             ckey_of maxttl (init_state clk0) evs) in
+  let all_ok = List.for_all (fun (_, _, mq, _) -> match mq with Ok _ -> true | _ -> false) dsteps in
+  if not all_ok then "skip" else
+  let ms_of = List.map (fun (lk, cl, mq, g) -> match mq with Ok m -> (lk, cl, m, g) | _ -> failwith "unreachable") dsteps in
+  let upq_of outs = String.concat "|" (List.concat_map (fun o -> match o with
+      | Some (o : creq_out) -> List.filter_map (fun e -> match e with
+          | EQuery (u, Ok w) -> Some (Printf.sprintf "%d:%s" (int_of_nat u) (hex_of_bytes (match w with _ :: _ :: r -> r | _ -> w)))
+          | _ -> None) o.co_eff
+      | None -> []) outs) in
+  if not prefetching then begin
+    let t = ref 0 in
+    let evs = List.map (fun (_, cl, m, g) -> t := !t + g; CReq (ns !t, ns !t, z_of_int 1000, m, cl)) ms_of in
+    let outs = run_events evs in
+    let rs = List.mapi (fun i (o, (lk, _, m, _)) -> match o with
+        | Some o -> Printf.sprintf "r%d=%s" (i + 1) (resp_of lk m o) | None -> "") (List.combine outs ms_of) in
+    Printf.sprintf "n=%d %s upq=%s" (List.length ms_of) (String.concat " " rs) (let u = upq_of outs in if u = "" then "-" else u)
+  end else begin
+    match ms_of with
+    | (lk1, cl1, m1, _) :: (lk2, cl2, m2, g2) :: _ ->
+      let alt tick =
+        let evs = [CReq (ns 0, ns 0, z_of_int 1000, m1, cl1); CTick (n_of_int (1000 + tick));
+                   CReq (ns g2, ns g2, z_of_int 1000, m2, cl2)] in
+        (match run_events evs with
+         | [Some o1; _; Some o2] -> (resp_of lk1 m1 o1, resp_of lk2 m2 o2)
+         | _ -> ("-", "-")) in
+      let (r1, r2hit) = alt 3 in
+      let (_, r2miss) = alt 4 in
+      Printf.sprintf "pf r1=%s r2=%s|%s" r1 r2hit r2miss
+    | _ -> "skip"
+  end
+
+let () = register "cachedseq" run_cachedseq
